@@ -708,7 +708,10 @@ class Impl:
             coll = sc.StairsArray(members)
             return getattr(coll, name)()
         elif container == "accessor":
-            return getattr(pd.Series(members, dtype="Stairs").sc, name)()
+            ser = pd.Series(members, dtype="Stairs")
+            if name.startswith("logical"):
+                return getattr(ser.sc, name)()
+            return getattr(ser, name)()      # Series reductions dispatch to StairsArray._reduce
         else:
             coll = list(members)
         return getattr(sc, name)(coll)
